@@ -36,6 +36,7 @@ type World struct {
 	Group1     *key.Group
 	Group2     *key.Group          // the group after M was resharded out (nil if that resharing did not complete on L)
 	Terms2     *pdkg.ProposalTerms // the real epoch-2 proposal M holds in Proposed/Accepted
+	Terms3     *pdkg.ProposalTerms // the real epoch-2 proposal in which M leaves (base state "leaving")
 	Err        error
 }
 
@@ -163,6 +164,15 @@ func Setup(scID, dir string) *World {
 			w.Err = fmt.Errorf("reshare without M: %w", err)
 			return
 		}
+		// "leaving": M holds the proposal that reshards it out (Proposed, listed under Leaving), nobody has accepted yet
+		clk.Sleep(2 * time.Second) // gossip is asynchronous
+		if cur := M.Current(BeaconID); cur != nil && cur.State == dkg.Proposed && len(cur.Leaving) == 1 {
+			w.Terms3 = dkg.VerifTermsFromState(cur)
+			snapshot("leaving")
+		} else {
+			w.Err = fmt.Errorf("M is not in Proposed as a leaver after the proposal that reshards it out (state %v)", cur)
+			return
+		}
 		if err := nt.Accept(ctx, B); err != nil {
 			w.Err = fmt.Errorf("accept by B: %w", err)
 			return
@@ -279,10 +289,13 @@ func (w *World) build(t Case, over *pdkg.ProposalTerms, now time.Time) (*pdkg.Go
 		if over != nil {
 			terms = pb.Clone(over).(*pdkg.ProposalTerms)
 		} else {
-			if t.Base != "proposed" && t.Base != "accepted" && t.Base != "b-accepted" {
+			if t.Base != "proposed" && t.Base != "accepted" && t.Base != "b-accepted" && t.Base != "leaving" {
 				return nil, false
 			}
 			terms = pb.Clone(w.Terms2).(*pdkg.ProposalTerms)
+			if t.Base == "leaving" {
+				terms = pb.Clone(w.Terms3).(*pdkg.ProposalTerms)
+			}
 		}
 		switch t.Kind {
 		case "accept":
